@@ -23,7 +23,7 @@ def _cases(N):
     for n in range(1, N + 1):
         for algo, kinds in (('lanczos', kc.MATRIX_KINDS_H), ('arnoldi', kc.MATRIX_KINDS_G + kc.MATRIX_KINDS_H)):
             for kind in kinds:
-                ks = range(1, n) if kind.startswith('block_invariant') else [0]
+                ks = range(1, n) if kind.startswith('block_invariant') else (range(1, n + 1) if kind == 'nilpotent_chain' else [0])
                 for k in ks:
                     for sk in kc.START_KINDS:
                         for how in kc.PRESENTATIONS:
